@@ -20,9 +20,11 @@ from .common import cN, cZ, cnat, cbool, clist, copt, cstr
 
 THEOREMS = [
     "headers_as_configured", "sent_as_configured", "entries_named_and_qualified_by_their_declaration",
+    "list_entry_one_element_per_item", "plain_value_one_element", "positional_none_leaves_part_out",
+    "surplus_values_skipped_elements_kept",
     "caller_objects_untouched", "repeat_same", "wsse_one_security", "wsse_timestamps_lexical",
-    "list_header_refuted", "surplus_then_element_refuted", "positional_none_refuted",
-    "positional_none_type_part_refuted",
+    "repaired_is_current", "list_header_regression", "surplus_then_element_regression",
+    "positional_none_regression", "positional_none_type_part_regression",
 ]
 
 PRE = "From SV Require Import Lib.Base Fam.Schema C01.Marshal C01.Guard C06.DateTime C17.Headers."
@@ -44,6 +46,28 @@ KEY_SURPLUS = "C17:element-after-surplus-values-dropped"
 KEY_NONE = "C17:positional-none-sends-empty"
 KEY_NONE_TYPE = "C17:positional-none-type-part-raises"
 KEY_REBIND = "C17:ready-made-element-prefix-rebinding-captured"
+
+# The four defects repaired in /repo (02a92ff, dfdc017, c4ebdf6), in the order of the switches of
+# `quirks` in coq/C17/Headers.v (q_list, q_skipped, q_break, q_none).  The model no longer has any
+# of them: an implementation that shows one again fails the specification and is reported under
+# the defect's own key.
+REPAIRED = [
+    (KEY_LIST, "a list-valued header entry raises AttributeError instead of sending one element per item"),
+    (KEY_NONE_TYPE, "a value the marshaller leaves out (None for an optional part declared with type=) raises "
+                    "AttributeError instead of adding nothing"),
+    (KEY_SURPLUS, "a ready-made Element after more plain values than declared parts is dropped"),
+    (KEY_NONE, "a positional None sends an empty element instead of omitting the part"),
+]
+
+
+def quirk_combos():
+    """every non-empty combination of the four switches, fewest switches first"""
+    combos = [tuple(bool(m >> k & 1) for k in range(4)) for m in range(1, 16)]
+    return sorted(combos, key=lambda c: (sum(c), [not x for x in c]))
+
+
+def c_quirks(c):
+    return "hdr_agrees_q (mkQ %s)" % " ".join(cbool(x) for x in c)
 
 
 def new_interner():
@@ -359,8 +383,15 @@ def gen_headers(rng, S, parts, force=None):
             if r < 0.10:
                 return None
             if r < 0.18:
-                return [gen_part_value(rng, S, parts[j]) for _ in range(rng.choice([0, 1, 2, 2]))]
+                return gen_list(j)
         return v
+
+    def gen_list(j, sizes=(0, 1, 2, 2)):
+        """a list-valued entry for part j; now and then with an item that is None"""
+        l = [gen_part_value(rng, S, parts[j]) for _ in range(rng.choice(sizes))]
+        if rng.random() < 0.3:
+            l.insert(rng.randrange(len(l) + 1), None)
+        return l
 
     r = rng.random()
     if force is None and r < 0.06:
@@ -397,7 +428,7 @@ def gen_headers(rng, S, parts, force=None):
     items = [("val", plain(j, allow_special=(force is None))) for j in range(nvals)]
     if force == "list" and k:
         j = rng.randrange(min(k, nvals))
-        items[j] = ("val", [gen_part_value(rng, S, parts[j]) for _ in range(rng.choice([0, 1, 2]))])
+        items[j] = ("val", gen_list(j, (0, 1, 2)))
     if force == "none" and k:
         j = rng.randrange(min(k, nvals))
         items[j] = ("val", None)
@@ -576,35 +607,40 @@ BASE64 = re.compile(r"^([A-Za-z0-9+/]{4})*([A-Za-z0-9+/]{2}==|[A-Za-z0-9+/]{3}=)
 
 
 def features(parts, H):
-    """which of the reproduced defects of the unchanged code the input runs into"""
+    """which of the input classes of the four repaired defects the configuration exercises
+    (coverage accounting, and the fallback for naming a defect that returned)"""
     f = set()
     k = len(parts)
+
+    def entry(part, v):
+        if isinstance(v, list):
+            f.add(KEY_LIST)
+            if part.kind == "type" and any(x is None for x in v):
+                f.add(KEY_NONE_TYPE)          # an item the marshaller leaves out
     if H.kind in ("one", "seq"):
         items = H.items
         if H.kind == "one" and items[0] == ("val", None):
             return f
         n = 0
-        exhausted = False
+        surplus = False
         for x in items:
             if x[0] == "elem":
-                if exhausted:
+                if surplus:
                     f.add(KEY_SURPLUS)
                 continue
-            if exhausted:
-                continue
             if n == k:
-                exhausted = True
+                surplus = True
                 continue
-            if isinstance(x[1], list):
-                f.add(KEY_LIST)
-            elif x[1] is None:
+            if x[1] is None:
                 f.add(KEY_NONE if parts[n].kind == "elem" else KEY_NONE_TYPE)
+            else:
+                entry(parts[n], x[1])
             n += 1
     elif H.kind == "dict":
         d = dict(H.items)
         for p in parts:
-            if isinstance(d.get(p.key()), list):
-                f.add(KEY_LIST)
+            if d.get(p.key()) is not None:
+                entry(p, d[p.key()])
     return f
 
 
@@ -761,8 +797,8 @@ def payload_of(meta):
 
 
 # ---------------------------------------------------------------------------
-# the fixed part: one hand-written interface on which every reproduced defect
-# of the unchanged code is re-observed on every run
+# the fixed part: one hand-written interface on which the input classes of the
+# four repaired defects (and the ordinary shapes) are exercised on every run
 # ---------------------------------------------------------------------------
 
 def fixed_interface():
@@ -790,7 +826,7 @@ def fixed_configs():
         ("op0", Headers("dict", [("H2", obj), ("hp3", ("leaf", 7, "7")), ("H1", None)], []), None),
         ("op1", Headers("one", [("val", leaf("single"))], []), None),
         ("op1", Headers("seq", [("elem", 0), ("val", leaf("a")), ("elem", 0)], [x], "list"), sec),
-        # the four reproduced defects
+        # the input classes of the four repaired defects
         ("op0", Headers("seq", [("val", [leaf("a"), leaf("b")])], [], "list"), None),
         ("op0", Headers("dict", [("H1", [leaf("a")])], []), None),
         ("op1", Headers("seq", [("val", leaf("a")), ("val", leaf("b")), ("elem", 0)], [x], "list"), None),
@@ -798,6 +834,11 @@ def fixed_configs():
         ("op0", Headers("seq", [("val", None), ("val", obj)], [], "list"), None),
         ("op0", Headers("seq", [("val", leaf("a")), ("val", None)], [], "list"), None),
         ("op0", Headers("seq", [("val", leaf("a")), ("val", obj), ("val", None)], [], "tuple"), None),
+        # list-valued entries with an item that is None (left out by the marshaller for the type= part)
+        ("op0", Headers("seq", [("val", leaf("a")), ("val", [obj, obj]), ("val", [None, ("leaf", 3, "3")])], [], "list"), None),
+        ("op0", Headers("dict", [("H1", [leaf("a"), leaf("b")]), ("hp3", [None]), ("H2", [])], []), None),
+        ("op0", Headers("seq", [("val", None), ("val", None), ("val", None), ("val", leaf("s")), ("elem", 0),
+                                ("val", None), ("elem", 0)], [x], "tuple"), sec),
     ]
 
 
@@ -870,9 +911,16 @@ def run(ck):
     ]
     ck.notes = [
         "modelled: Binding.headercontent (Definition.nvl default, tuple-wrapping of a single value, the positional "
-        "loop with its counter and break, dict lookup skipping None, deepcopy of caller Elements, mkheader + "
-        "setPrefix with their AttributeError on lists and skipped values), Binding.header/Element.append (parent "
-        "pointer), Security/UsernameToken/Timestamp .xml() — at the level of the namespace infoset",
+        "loop with its counter, surplus plain values skipped, positional None leaving the part out, dict lookup "
+        "skipping None, deepcopy of caller Elements, the local add(): mkheader mapped over a list-valued entry, one "
+        "setPrefix + append per node, skipped nodes left out, AttributeError for a list inside the list), "
+        "Binding.header/Element.append (parent pointer), Security/UsernameToken/Timestamp .xml() — at the level of "
+        "the namespace infoset",
+        "the four defects repaired in /repo (02a92ff, dfdc017, c4ebdf6) are no longer in the model; the function "
+        "as it was before (headercontent_q, one switch per defect) is only used to NAME the defect when an "
+        "implementation fails the specification the way the old code did: reported as a failing input under "
+        "C17:list-valued-header-entry / C17:positional-none-type-part-raises / "
+        "C17:element-after-surplus-values-dropped / C17:positional-none-sends-empty",
         "covered by correspondence only: wsdl.Binding.header/__resolveheaders (every generated soap:header must "
         "resolve to the declared part, in order), prefix handling (setPrefix/promotePrefixes: infoset compared), "
         "setnonce/setcreated (the token fields are read back at call time; generated values checked for shape)",
@@ -881,8 +929,10 @@ def run(ck):
         "prefix handling is outside the infoset model: three fixed ready-made elements that bind prefixes at "
         "several depths are compared (expat infoset of the caller's element vs the Header child) outside Coq",
         "not flagged (reported): Security carries an unqualified mustUnderstand attribute; a token without "
-        "password sends an empty Password element; surplus plain values are dropped silently; a value that "
-        "already contains an entity reference is sent verbatim (C04's known finding)",
+        "password sends an empty Password element; surplus plain values are dropped silently; a None item of a "
+        "list-valued entry for a global element sends an empty element (C01's rule for list items); a list inside "
+        "a list-valued entry raises AttributeError (outside the guard, no opinion); a value that already contains "
+        "an entity reference is sent verbatim (C04's known finding)",
     ]
     proof_ok = ck.prove(THEOREMS) if THEOREMS else None
 
@@ -978,14 +1028,63 @@ def run(ck):
     in_guard = set(res[preds[4]])             # negb guard fails = inside the guard
     ck.extra["cases_inside_theorem_guard"] = len(in_guard)
     ck.extra["theorem_instance_failures"] = len(res[preds[5]])
-    ck.extra["cases_hitting_known_defects"] = sum(1 for _, m in cases if m["features"])
+    ck.extra["cases_exercising_repaired_defect_classes"] = sum(1 for _, m in cases if m["features"])
+    for _, m in cases:
+        for key in m["features"]:
+            ck.count("class-" + key.split(":", 1)[1])
+
+    # a case that fails the specification and is not what the model computes: does the implementation
+    # do what the code did BEFORE one of the four repairs?  (fewest switches first; only evaluated
+    # when there is such a case, i.e. never on the unchanged tree)
+    suspects = [i for i in sorted(spec_bad & disagree)
+                if i not in res["objects_ok"] and i not in res["repeat_ok"]]
+    returned = {}
+    hints = {}
+    probe_failed = False
+    if suspects:
+        combos = quirk_combos()
+        try:
+            qres = ck.run_cases("hdrq", PRE, "hcase", [c for c, _ in cases], [c_quirks(c) for c in combos], shard=40)
+            bad = dict((c, set(qres[c_quirks(c)])) for c in combos)
+            # the implementation is ONE program: prefer the fewest switches that explain every case
+            # of the run; otherwise the fewest that explain the case at hand
+            whole = [c for c in combos if not bad[c]]
+            ck.extra["old_behaviour_explaining_every_case"] = \
+                [REPAIRED[k][0] for k in range(4) if whole[0][k]] if whole else None
+            for i in suspects:
+                pool = [c for c in combos if i not in bad[c]]
+                if whole:
+                    pool = [c for c in pool if all(whole[0][k] or not c[k] for k in range(4))]
+                else:
+                    pool = [c for c in pool
+                            if all(REPAIRED[k][0] in cases[i][1]["features"] for k in range(4) if c[k])]
+                if pool:
+                    returned[i] = [REPAIRED[k] for k in range(4) if pool[0][k]]
+            if not whole and len(returned) < len(suspects):
+                # some failing case is NOT what the old code did: something else changed, and a match
+                # with the old code on other inputs may be a coincidence — kept as a hint only
+                hints = dict((i, [k for k, _ in v]) for i, v in returned.items())
+                returned = {}
+        except Exception as e:  # noqa
+            ck.extra["old_behaviour_probe_error"] = repr(e)[:300]
+            probe_failed = True
+    ck.extra["cases_showing_a_repaired_defect_again"] = len(returned)
+
+    def fallback_keys(m):
+        """the old-code comparison was not available (or matched nothing): name the defect from the
+        input class and the kind of result"""
+        raised = any(r[0] == "err" and r[1] == "EAttr" for r in m["results"])
+        out = []
+        for key, what in REPAIRED:
+            if key in m["features"] and raised == (key in (KEY_LIST, KEY_NONE_TYPE)):
+                out.append((key, what))
+        return out
 
     for i, (term, m) in enumerate(cases):
         for key, what in m["py"]:
             ck.failing_input(key, what, payload_of(m))
     for i in sorted(spec_bad):
         m = cases[i][1]
-        feats = m["features"]
         pl = payload_of(m)
         if i in res["objects_ok"]:
             ck.failing_input("C17:caller-object-altered",
@@ -993,35 +1092,31 @@ def run(ck):
         elif i in res["repeat_ok"]:
             ck.failing_input("C17:repeat-differs",
                              "repeating the call with the same header objects sent different headers (%s)" % m["operation"], pl)
-        elif feats and i not in disagree:
-            whats = {
-                KEY_LIST: "a list-valued header entry raises AttributeError instead of sending one element per item",
-                KEY_SURPLUS: "a ready-made Element after more plain values than declared parts is dropped",
-                KEY_NONE: "a positional None sends an empty element instead of omitting the part",
-                KEY_NONE_TYPE: "a positional None for a part declared with type= raises AttributeError",
-            }
-            for key in sorted(feats):
-                ck.failing_input(key, whats[key], pl)
         elif i in res["first_security_ok"]:
             ck.failing_input("C17:security-token",
                              "the Header of %s does not carry exactly one wsse:Security element with every token's "
                              "username, password or digest, nonce and XSD dateTime timestamps (wsse %s)"
                              % (m["operation"], pl["wsse"]), pl)
+        elif i in disagree and (returned.get(i) or (probe_failed and fallback_keys(m))):
+            for key, what in (returned.get(i) or fallback_keys(m)):
+                ck.failing_input(key, "%s (%s, soapheaders %s)" % (what, m["operation"], m["headers"].expr()[:200]), pl)
         else:
+            if i in hints:
+                pl["hint"] = "on this input the result is what the code did before the repair of %s" % ", ".join(hints[i])
             ck.failing_input("C17:header-content",
                              "the Header of %s does not hold exactly the configured entries (soapheaders %s)"
                              % (m["operation"], m["headers"].expr()[:200]), pl)
     # the theorem's own instance must hold on every case inside the guard
     for i in res[preds[5]]:
-        if i not in spec_bad and i not in disagree:
+        if i not in spec_bad:
             disagree.add(i)
 
     ck.rule = ("one hand-written interface (3 header parts: simple global element, nillable complex global element "
-               "in another namespace, type= part) with 11 fixed configurations incl. the four reproduced defects, "
+               "in another namespace, type= part) with 14 fixed configurations incl. the input classes of the four repaired defects, "
                "and 3 prefix-rebinding probes; "
                "generated abstract schemas (1-3 namespaces) x two operations with 0..3 declared header parts x "
                "soapheaders shapes {unset, single value/Element/None, tuple/list positional with 0..k+2 values, "
-               "None and list-valued entries, ready-made Elements (also the same object twice) interleaved, dict by "
+               "None and list-valued entries (items: values, None), surplus values, ready-made Elements (also the same object twice) interleaved, dict by "
                "part name with missing/None/list/unknown keys} x wsse {none, Security with 0..3 tokens: "
                "UsernameToken with/without password, digest, nonce (given/generated), encoding flag, created "
                "(given/now/invalid); Timestamp} x call sequences of length 1..%d reusing the same objects, some "
@@ -1029,8 +1124,8 @@ def run(ck):
                "header or wsse configured" % maxlen)
     if proof_ok is False:
         ck.unproved("proof obligation of C17 no longer checks: " + ck.proof_log[-1500:], {"log": ck.proof_log[-3000:]})
-    dis = sorted(i for i in disagree if i not in spec_bad or cases[i][1]["features"])
-    dis = [i for i in dis if i in set(res["hdr_agrees"]) or i in set(res[preds[5]])]
+    # model != implementation without a failing input (those were reported above)
+    dis = sorted(i for i in disagree if i not in spec_bad)
     if dis:
         m = cases[dis[0]][1]
         ck.unproved("model/implementation correspondence of C17 no longer holds: the implementation is no longer "
